@@ -1,0 +1,15 @@
+//go:build verif
+
+package text
+
+// Add-only exports for the verification harness (built only with -tags verif).
+
+// VerifDeduplicateFragments runs (*Extractor).deduplicateFragments on the given
+// fragment list (the list GetFragments/Extract would deduplicate).
+func VerifDeduplicateFragments(fragments []TextFragment) []TextFragment {
+	e := &Extractor{fragments: fragments}
+	return e.deduplicateFragments()
+}
+
+// VerifGroupFragments exposes groupFragments (line grouping of GetText).
+func VerifGroupFragments(fragments []TextFragment) [][]TextFragment { return groupFragments(fragments) }
